@@ -26,6 +26,8 @@ func init() {
 		Run: runC10,
 	})
 	addMutants("C10",
+		mutant{"empty commit moves the cursors of an empty buffer", "bip_buffer.go",
+			"\ttoCommit := buf.claimTail - buf.claimHead\n\tif toCommit > n {\n\t\ttoCommit = n\n\t}\n\tif toCommit == 0 {", "\ttoCommit := buf.claimTail - buf.claimHead\n\tif toCommit > n {\n\t\ttoCommit = n\n\t}\n\tif n == 0 {", "C10-R2"},
 		mutant{"claim may exceed the free range", "bip_buffer.go", "\tif claimSize > n {\n\t\tclaimSize = n\n\t}", "\tclaimSize = n", "C10-R1"},
 		mutant{"wrapped claim starts at the primary tail", "bip_buffer.go", "\t\tclaimHead = buf.wrappedTail\n\t\tfreeSpace = buf.head - buf.wrappedTail", "\t\tclaimHead = buf.tail\n\t\tfreeSpace = buf.head - buf.wrappedTail", "C10-R1"},
 		mutant{"free space before the head overestimated", "bip_buffer.go", "\t\t\tclaimHead = 0\n\t\t\tfreeSpace = spaceBefore", "\t\t\tclaimHead = 0\n\t\t\tfreeSpace = buf.tail", "C10-R1"},
@@ -300,14 +302,14 @@ func runC10(c *Ctx) {
 		}
 		got := storeTable(fn, cursors, names, guardStr(names))
 		want := []string{
-			"($n==0) => claimHead = 0",
-			"($n==0) => claimTail = 0",
-			"($n!=0)&(0==Committed()) => head = claimHead",
-			"($n!=0)&(0==Committed()) => tail = (amount+claimHead)",
-			"($n!=0)&(0!=Committed())&(claimHead==tail) => tail = (amount+tail)",
-			"($n!=0)&(0!=Committed())&(claimHead!=tail) => wrappedTail = (amount+wrappedTail)",
-			"($n!=0) => claimHead = 0",
-			"($n!=0) => claimTail = 0",
+			"(0==amount) => claimHead = 0",
+			"(0==amount) => claimTail = 0",
+			"(0!=amount)&(0==Committed()) => head = claimHead",
+			"(0!=amount)&(0==Committed()) => tail = (amount+claimHead)",
+			"(0!=Committed())&(0!=amount)&(claimHead==tail) => tail = (amount+tail)",
+			"(0!=Committed())&(0!=amount)&(claimHead!=tail) => wrappedTail = (amount+wrappedTail)",
+			"(0!=amount) => claimHead = 0",
+			"(0!=amount) => claimTail = 0",
 		}
 		compare(fn, "transitions", got, want, "committed bytes are attached to the wrong region (stale bytes become visible at the head, or new bytes lie in space the buffer considers free)")
 	}
